@@ -31,7 +31,7 @@ META = {
         "outcomes: past / left-for-later / delay d."
     ),
     "assumptions": [
-        "the wall clock is the scripted one (run.datetime patched harness-side)",
+        "the wall clock is the scripted one (run.datetime patched harness-side); shards run with the process' local zone (TZ) set to UTC, Asia/Tokyo or America/New_York and with naive now() at UTC or UTC+5:30: none of it may matter",
         "small-scope: instants outside the listed minute bases are not evaluated",
     ],
     "bounds": {
@@ -122,7 +122,27 @@ def eval_case(run, ScheduledTask, holder, now, t_utc, spell):
     return run.get_task_delay(task)
 
 
+def _set_process_tz(name: Any) -> None:
+    """The operating system's local zone (what naive datetimes mean to astimezone()/mktime)."""
+    import os
+    import time
+
+    if name is None:
+        os.environ.pop("TZ", None)
+    else:
+        os.environ["TZ"] = name
+    time.tzset()
+
+
 def run_shard(shard: Dict[str, Any]) -> Dict[str, Any]:
+    _set_process_tz([None, "Asia/Tokyo", "America/New_York"][(shard["secs"][0] // 6) % 3])
+    try:
+        return _run_shard(shard)
+    finally:
+        _set_process_tz(None)
+
+
+def _run_shard(shard: Dict[str, Any]) -> Dict[str, Any]:
     from mc import clock
     import taskiq.cli.scheduler.run as run
     from taskiq.scheduler.scheduled_task import ScheduledTask
